@@ -1,4 +1,6 @@
 import NomtModel.Props.C17_Frame
+import NomtModel.Props.C04
+import NomtModel.Store.FrameParams
 /-!
 # C04 — the content clause `hpre` of T4.1 / T4.9 for `ln` / `bbn`, discharged for the concrete decoder
 
@@ -11,20 +13,16 @@ subset of its page writes lost (power loss), any contents — decodes to the old
 namespace Nomt.C04
 open Nomt.Store
 
-/-- T4.10 **`hpre` for the concrete decoder** (power loss before the switch-over).  `checkPlacement img tr = ok` and
-`bbn_leaked = 0` ⇒ for EVERY prefix `p` of the events before the meta write, EVERY sub-list `sub` of `p` (the writes that
+/-- T4.10 **`hpre` for the concrete decoder** (power loss before the switch-over).  `checkPlacement img tr = ok` ⇒ for EVERY prefix `p` of the events before the meta write, EVERY sub-list `sub` of `p` (the writes that
 reached the device) and every image `B` carrying the old meta page whose `ln` / `bbn` differ from the pre-image at most on the
 pages written by `sub` (any contents, files possibly extended): `wfImage B` is `wfImage img` and `absImage B` is `absImage img`. -/
 theorem T4_10_pre_switchover_images_decode_to_old_state {img : Image} {tr : List IoEv} {stP : PlacementStats}
-    (h : checkPlacement img tr = .ok stP) {st : Stats} {lnM bbnM : Array UInt8}
-    (hd : wfDetailM img = .ok (st, lnM, bbnM)) (hleak : st.bbnLeaked = 0)
+    (h : checkPlacement img tr = .ok stP)
     (p sub : List IoEv) (hp : p <+: preMeta tr) (hsub : sub.Sublist p) (B : Image) (hmeta : B.metaF = img.metaF)
     (hln : Touched img.ln B.ln (writesOf "ln" sub)) (hbbn : Touched img.bbn B.bbn (writesOf "bbn" sub)) :
     wfImage B = wfImage img ∧ absImage B = absImage img ∧ absLeaves B = absLeaves img := by
-  obtain ⟨m, st', lnM', bbnM', _, hd', hkeep⟩ := C17.T17_7_accepted_trace_keeps_old_state h
-  have e : st' = st := by rw [hd] at hd'; injection hd' with h'; simp only [Prod.mk.injEq] at h'; exact h'.1.symm
-  subst e
-  obtain ⟨h1, h2, h3, _, _⟩ := hkeep hleak sub B (hsub.trans hp.sublist) hmeta hln hbbn
+  obtain ⟨m, st', lnM', bbnM', _, _, hkeep⟩ := C17.T17_7_accepted_trace_keeps_old_state h
+  obtain ⟨h1, h2, h3, _, _⟩ := hkeep sub B (hsub.trans hp.sublist) hmeta hln hbbn
   exact ⟨h1, h2, h3⟩
 
 /-- non-vacuity: the fresh store and the trace of its first sync (`Store/FrameFresh.lean`); prefix = the first two events,
@@ -35,11 +33,106 @@ example (c2 : ByteArray) (h2 : c2.size = PAGE) :
     wfImage B = wfImage img ∧ absImage B = absImage img ∧ absLeaves B = absLeaves img := by
   obtain ⟨stP, hacc⟩ := Fresh.accepted (zeros PAGE) (size_zeros _) (allZero_zeros _)
   intro img B
-  refine T4_10_pre_switchover_images_decode_to_old_state hacc (Fresh.hwalk _ (size_zeros _) (allZero_zeros _)) rfl
+  refine T4_10_pre_switchover_images_decode_to_old_state hacc
     ((preMeta Fresh.tr).take 2) (((preMeta Fresh.tr).take 2).drop 1) (List.take_prefix _ _) (List.drop_sublist _ _) B rfl ?_ ?_
   · have : writesOf "ln" (((preMeta Fresh.tr).take 2).drop 1) = [2] := by decide
     rw [this]
     exact writePage_touched _ _ _ h2
   · exact Touched.refl _ _
+
+/-! ## The abstract crash theorem instantiated with the concrete decoder (`Store/FrameParams.lean`)
+
+`realParams : Params ByteArray RealMeta RealWal RealAbs`: contents are pages, files are page functions, the meta record is the meta
+page + the read sets of the walk of the old image (`metaRecOf`), `reach` is the read set, `absTree` is `absImage` of the image rebuilt
+from the pages of the read set.  `absTree_real`: on every disk that agrees with the accepted pre-image on the read set this IS
+`absImage` of the pre-image. -/
+section params
+open NomtDisk
+variable {LogRec : Type}
+
+/-- T4.11 **phase A of the crash theorem, verbatim, for the concrete decoder.**  `d0` is the abstract disk of the accepted pre-image
+`A` (its meta record, its pages on the read set, no pending WAL); the events are the abstraction (`absEv`, any page contents) of the
+REAL pre-switch-over trace accepted by `checkPlacement`.  Then `phaseA_images` / `invA_run` of `Store/Crash.lean` apply as they are:
+every image (durable part ⊕ ANY sub-list of the un-synced effects) of EVERY prefix abstracts to the old state, and the tree
+component of that abstraction is `absImage A` — the real decoder's reading of the pre-image. -/
+theorem T4_11_phaseA_for_the_concrete_decoder {A : Image} {tr : List IoEv} {stP : PlacementStats}
+    (h : checkPlacement A tr = .ok stP) {m : Meta} {st : Stats} {lnM bbnM : Array UInt8}
+    (hm : imageMeta A = .ok m) (hd : wfDetailM A = .ok (st, lnM, bbnM))
+    (d0 : Disk ByteArray RealMeta RealWal LogRec) (hmt : d0.mt = metaRecOf A m lnM bbnM)
+    (hpages : ∀ f pn, realReach d0.mt f pn → d0.pages f pn = pagesOf A f pn) (hwal : d0.wal = none)
+    (content : IoEv → ByteArray) (p : List (Ev ByteArray RealMeta RealWal LogRec))
+    (hp : p <+: (preMeta tr).filterMap (absEv content))
+    (img : Disk ByteArray RealMeta RealWal LogRec) (himg : IsImage (run ⟨d0, []⟩ p) img) :
+    absOf realParams img = absOf realParams d0 ∧ (absOf realParams img).1 = absImage A := by
+  have hev := placement_evPre_real h hm hd d0 hmt content
+  have hinert : ∀ b, htView realParams d0 b = d0.pages File.fHt b := by intro b; simp [htView, hwal]
+  have hi0 : InvA realParams d0 ⟨d0, []⟩ := ⟨⟨rfl, fun _ _ _ => rfl, Or.inl rfl⟩, fun e he => by cases he⟩
+  have hi := invA_run realParams d0 p _ hi0 (fun ev hev' => hev ev (hp.subset hev'))
+  have h1 := phaseA_images realParams d0 hinert _ hi img himg
+  refine ⟨h1, ?_⟩
+  rw [h1]
+  show realParams.absTree d0.mt d0.pages = absImage A
+  have := absTree_real hm hd d0.pages (fun f pn hr => hpages f pn (hmt ▸ hr))
+  rw [hmt]; exact this
+
+/-- T4.12 **T4.1 applied verbatim to the concrete decoder**: `pre` = the abstraction of the real accepted pre-switch-over trace followed
+by the events the trace abstraction does not carry (`preW`: the WAL write and its fsync, whose clauses of `EvPre` need the contents).
+Hypothesis `hpre` of `T4_1_powerloss_atomic` is DISCHARGED for the trace part by `checkPlacement = ok`; what remains are exactly the
+clauses the trace cannot decide (contents of the WAL, `hflushed`, `PostOK`), as for the hash table in `Props/C04_PrepareSync`. -/
+theorem T4_12_powerloss_atomic_for_the_concrete_decoder {A : Image} {tr : List IoEv} {stP : PlacementStats}
+    (h : checkPlacement A tr = .ok stP) {m : Meta} {st : Stats} {lnM bbnM : Array UInt8}
+    (hm : imageMeta A = .ok m) (hd : wfDetailM A = .ok (st, lnM, bbnM))
+    (d0 : Disk ByteArray RealMeta RealWal LogRec) (hmt : d0.mt = metaRecOf A m lnM bbnM)
+    (hinert : ∀ b, htView realParams d0 b = d0.pages File.fHt b)
+    (content : IoEv → ByteArray) (preW post : List (Ev ByteArray RealMeta RealWal LogRec)) (m1 : RealMeta) (w1 : RealWal)
+    (hpreW : ∀ ev ∈ preW, EvPre realParams d0 ev)
+    (hflushed : (run ⟨d0, []⟩ ((preMeta tr).filterMap (absEv content) ++ preW)).vol = [])
+    (hwal : (run ⟨d0, []⟩ ((preMeta tr).filterMap (absEv content) ++ preW)).dur.wal = some w1)
+    (hseq : realParams.walSeqn w1 = realParams.seqn m1)
+    (hpost : PostOK realParams w1
+      ⟨applyEff (run ⟨d0, []⟩ ((preMeta tr).filterMap (absEv content) ++ preW)).dur (.setMeta m1), []⟩ post) :
+    (∀ p, p <+: ((preMeta tr).filterMap (absEv content) ++ preW) ++ ([Ev.eff (.setMeta m1), Ev.fsync File.fMeta] ++ post) →
+       ∀ img, IsImage (run ⟨d0, []⟩ p) img →
+         absOf realParams img = absOf realParams d0 ∨
+         absOf realParams img = absNew realParams (run ⟨d0, []⟩ ((preMeta tr).filterMap (absEv content) ++ preW)).dur m1 w1) ∧
+    (∀ img, IsImage (run ⟨d0, []⟩ (((preMeta tr).filterMap (absEv content) ++ preW) ++
+        ([Ev.eff (.setMeta m1), Ev.fsync File.fMeta] ++ post))) img →
+       absOf realParams img = absNew realParams (run ⟨d0, []⟩ ((preMeta tr).filterMap (absEv content) ++ preW)).dur m1 w1) :=
+  T4_1_powerloss_atomic realParams d0 hinert _ post m1 w1
+    (by
+      intro ev hev
+      rcases List.mem_append.1 hev with hev | hev
+      · exact placement_evPre_real h hm hd d0 hmt content ev hev
+      · exact hpreW ev hev)
+    hflushed hwal hseq hpost
+
+end params
+
+/-- the abstract disk of the small accepted image (`Store/FrameSmall.lean`) -/
+def smallDisk : NomtDisk.Disk ByteArray RealMeta RealWal Nat :=
+  { pages := pagesOf Small.img, mt := metaRecOf Small.img Small.m Small.lnMarks Small.bbnMarks, wal := none, log := [] }
+
+/-- non-vacuity of T4.11: the small image (one leaf with two keys, one branch node) and the accepted trace of a sync on it; after the two
+page writes (new leaf at `ln` page 2, new branch node at `bbn` page 2, any contents `c`), the image in which the FIRST write was lost
+abstracts — through the abstract crash machinery instantiated with the real decoder — to the two old keys. -/
+example (c : ByteArray) :
+    let w1 : NomtDisk.Eff ByteArray RealMeta RealWal Nat := .page NomtDisk.File.fLn 2 c
+    let w2 : NomtDisk.Eff ByteArray RealMeta RealWal Nat := .page NomtDisk.File.fBbn 2 c
+    (NomtDisk.absOf realParams (NomtDisk.applyEffs smallDisk [w2])).1 =
+      .ok [(Small.key1, [1, 2, 3].toByteArray), (Small.key2, [9].toByteArray)] := by
+  intro w1 w2
+  obtain ⟨stP, hacc⟩ := Small.accepted
+  have hpre : [NomtDisk.Ev.eff w1, NomtDisk.Ev.eff w2] <+: (preMeta Small.tr).filterMap (absEv (fun _ => c)) :=
+    ⟨[.fsync NomtDisk.File.fLn, .fsync NomtDisk.File.fBbn], rfl⟩
+  have himg : NomtDisk.IsImage (NomtDisk.run ⟨smallDisk, []⟩ [NomtDisk.Ev.eff w1, NomtDisk.Ev.eff w2])
+      (NomtDisk.applyEffs smallDisk [w2]) := ⟨[w2], List.Sublist.cons _ (List.Sublist.refl _), rfl⟩
+  have h := (T4_11_phaseA_for_the_concrete_decoder hacc (Small.hmeta _ _ _) (Small.hwalk Small.pages0) smallDisk rfl
+    (fun _ _ _ => rfl) rfl (fun _ => c) _ hpre _ himg).2
+  rw [h]
+  have hl := Small.hleaves Small.pages0
+  show absImage Small.img = _
+  unfold absImage
+  rw [show absLeaves Small.img = _ from hl]
+  rfl
 
 end Nomt.C04
